@@ -605,7 +605,7 @@ def _new_targets(ctx, dim, tol):
                for d in range(dim)]
     close = [_isclose(ctx, old[d][i], new[d][i]) for d in range(dim) for i in range(len(old[d]))]
     diff = [ctx.ne(new[d][i], old[d][i]) for d in range(dim) for i in range(len(old[d]))]
-    if tol == "beyond":     # "differs from the present one": np.allclose is the code's test (field/base.py)
+    if tol == "beyond":     # differs by more than the np.allclose window Field._pos_equal used before fix 10bf78d
         ctx.require(ctx.Not(ctx.And(*close)))
     else:
         ctx.require(ctx.And(ctx.And(*close), ctx.Or(*diff)))
@@ -852,7 +852,10 @@ def _native_scenarios():
 
     g = [[0.25, 0.7, 1.5]]
     nz = gs.normalizer.LogNormal
+    g2 = [[0.3, 0.9, 1.4]]
     sc = {
+        "Krige.set_pos": ("cs(g); cs([[0.3, 0.9, 1.4]])", None, None),
+        "CondSRF.set_pos": ("cs(g); cs([[0.3, 0.9, 1.4]])", None, None),
         "Krige.set_condition": ("cs(g); cs.krige.set_condition([[0.25, 1.5]], [5.0, -3.0]); cs(g)",
                                 lambda cs: cs.krige.set_condition([[0.25, 1.5]], [5.0, -3.0]),
                                 lambda: mk(vals=(5.0, -3.0))),
@@ -869,6 +872,24 @@ def _native_scenarios():
     return sc, mk, g
 
 
+# the symbolic coherence contract that covers a mutator (exact; the dataflow pattern is only sufficient)
+COVERED_BY = {
+    "Krige.set_condition": "Krige.set_condition/equals-fresh-object/",
+    "Krige.set_pos": "CondSRF.set_pos/equals-fresh-object/",
+    "CondSRF.set_pos": "CondSRF.set_pos/equals-fresh-object/",
+    "Krige.model.setter": "CondSRF.model.setter/equals-fresh-object/",
+    "Krige.mean.setter": "CondSRF.mean/trend/normalizer.setter/equals-fresh-object/",
+    "Krige.trend.setter": "CondSRF.mean/trend/normalizer.setter/equals-fresh-object/",
+    "Krige.normalizer.setter": "CondSRF.mean/trend/normalizer.setter/equals-fresh-object/",
+    "CondSRF.model.setter": "CondSRF.model.setter/equals-fresh-object/",
+    "CondSRF.mean.setter": "CondSRF.mean/trend/normalizer.setter/equals-fresh-object/",
+    "CondSRF.trend.setter": "CondSRF.mean/trend/normalizer.setter/equals-fresh-object/",
+    "CondSRF.normalizer.setter": "CondSRF.mean/trend/normalizer.setter/equals-fresh-object/",
+    "Krige.set_drift_functions": "Krige.set_drift_functions+set_condition()/equals-fresh-object/",
+    "Krige.cond_err.setter": "Krige.set_condition[cond_err]/equals-fresh-object/",
+}
+
+
 def native_probe(name):
     """None if the history ends in the field of a fresh object, else a witness dict"""
     sc, mk, g = _native_scenarios()
@@ -879,9 +900,13 @@ def native_probe(name):
         warnings.simplefilter("ignore")
         cs = mk()
         cs(g)
-        mutate(cs)
-        got = cs(g)
-        want = fresh()(g)
+        if mutate is None:      # new target positions
+            got = cs([[0.3, 0.9, 1.4]])
+            want = mk()([[0.3, 0.9, 1.4]])
+        else:
+            mutate(cs)
+            got = cs(g)
+            want = fresh()(g)
     if np.allclose(got, want, rtol=1e-9, atol=1e-12):
         return None
     return {"history": "cs = CondSRF(Simple(Exponential(dim=1, var=1.3, len_scale=0.8), [[0.25, 1.5]], [1.0, 2.0], "
@@ -918,14 +943,23 @@ def frame_obligations(rep, only=None):
     _, Rsc = rw("Krige", "krige/base.py", "Krige.set_condition", None, "r")
     obls = []
 
-    def add(oid, ok, detail, fns, probe=None):
-        status, witness = (DISCHARGED, None)
+    def add(oid, ok, detail, fns, probe=None, mutator=None):
+        status, witness, backend = DISCHARGED, None, "dataflow"
         if not ok:
             w = native_probe(probe) if probe else None
             status, witness = (FAILED, w) if w else (UNDECIDED, None)
             if w:
                 detail += "; native history reproduces: " + w["history"]
-        obls.append(Obligation("C07/frames/" + oid, status, backend="dataflow", detail=detail, witness=witness,
+            else:
+                # the syntactic pattern is sufficient, not necessary: the exact statement is the symbolic
+                # coherence contract of this mutator; if all its obligations were discharged in this run the
+                # fact is covered by them
+                pre = "C07/" + COVERED_BY.get(mutator or "", "\0")
+                cov = [o for o in rep.obls if o.id.startswith(pre)]
+                if cov and all(o.status == DISCHARGED for o in cov):
+                    status, backend = DISCHARGED, "symrun"
+                    detail += "; dataflow pattern not matched, covered by the %d discharged obligations %s*" % (len(cov), pre)
+        obls.append(Obligation("C07/frames/" + oid, status, backend=backend, detail=detail, witness=witness,
                                functions=fns, replay={"native_probe": probe, "witness": witness}))
 
     add("Krige.__call__/setup-read-set-nonempty", {"_cond_val", "_krige_mat", "_model", "_mean"} <= setup,
@@ -949,7 +983,8 @@ def frame_obligations(rep, only=None):
             attr = qual
             ok = W == {"self.krige." + attr} or W == {"self.krige." + attr, "self.krige"}
             add(name + "/forwards-to-Krige.%s.setter-only" % attr, ok,
-                "write set %s: coherence reduces to the obligation on Krige.%s.setter" % (sorted(W), attr), fkey)
+                "write set %s: coherence reduces to the obligation on Krige.%s.setter" % (sorted(W), attr), fkey,
+                mutator=name)
             continue
         deletes = "self._field_names" in W and "self.*" in W        # Field.delete_fields / __delitem__
         if cls == "CondSRF":
@@ -958,14 +993,14 @@ def frame_obligations(rep, only=None):
         if kind == "complete":
             add(name + "/writes-setup=>deletes-stored-fields", (not hits) or deletes,
                 "writes %s of the kriging setup; deletes stored fields: %s (write set %s)"
-                % (hits, deletes, sorted(W)), fkey, probe=name)
+                % (hits, deletes, sorted(W)), fkey, probe=name, mutator=name)
             if deletes is False and hits:
                 continue
         else:
             hits = sorted(written & (setup | {a[5:] for a in Rsc if a.startswith("self._")}))
             ok = bool(hits) and not (written - set(hits) - BOOKKEEPING) and set(hits) <= {a[5:] for a in Rsc}
             add(name + "/writes-only-setup-attributes-reread-by-set_condition()", ok,
-                "writes %s, all of them read again by set_condition() (documented refresh)" % hits, fkey)
+                "writes %s, all of them read again by set_condition() (documented refresh)" % hits, fkey, mutator=name)
     dt = time.time() - t0
     for o in obls:
         o.time_s = dt / max(1, len(obls))
